@@ -100,17 +100,22 @@ def run_one(pid, c):
     try:
         e = dict(os.environ)
         e["CARGO_NET_OFFLINE"] = "true"
-        p = subprocess.run([os.path.join(V, "check"), pid, "quick"], cwd=V, env=e, stdout=subprocess.PIPE, stderr=subprocess.STDOUT, text=True, timeout=3600)
-        rc, out = p.returncode, p.stdout
-    except subprocess.TimeoutExpired:
-        rc, out = 2, "timeout"
+        # a mutant may hang inside the library: own process group, 10 minute budget, then kill the whole group
+        pr = subprocess.Popen([os.path.join(V, "check"), pid, "quick"], cwd=V, env=e, stdout=subprocess.PIPE, stderr=subprocess.STDOUT, text=True, start_new_session=True)
+        try:
+            out, _ = pr.communicate(timeout=600)
+            rc = pr.returncode
+        except subprocess.TimeoutExpired:
+            os.killpg(pr.pid, 9)
+            pr.communicate()
+            rc, out = 2, "timeout (hang)"
     finally:
         open(path, "w").write(src)
         subprocess.run(["rm", "-rf", os.path.join(V, "replays", "new")])
     msg = [l.strip() for l in out.splitlines() if l.startswith("  message")][:1]
     verdict = {0: "survived", 1: "killed"}.get(rc, "unusable")
     if rc == 2 and "does not build" not in out:
-        verdict = "inconclusive"
+        verdict = "hang" if out.startswith("timeout") else "inconclusive"
     return {"property": pid, "verdict": verdict, "rc": rc, "seconds": round(time.time() - t0, 1), "message": msg[0][:300] if msg else None, **c}
 
 
